@@ -24,6 +24,13 @@ Theorem C16_filemap_per_instance : filemap_per_instance = true.
 Proof. exact facts_ok2. Qed.
 Print Assumptions C16_filemap_per_instance.
 
+(* ResourceTreeTraverser.__call__ (regenerated): a '{subpath}' string of a matched route is split by
+   split_path_info (not decoded a second time), and the view selector is '@@' *)
+Theorem C16_traverser_facts_ok :
+  traverser_str_decodes_again = false /\ traverser_view_selector = [at_sign; at_sign].
+Proof. exact facts_ok3. Qed.
+Print Assumptions C16_traverser_facts_ok.
+
 (* _secure_path (over the regenerated insecure-element and invalid-character
    sets) accepts a tuple iff no element is '', '.', '..' and none contains '/'
    (= os.sep) or NUL; the accepted tuple is joined with '/' *)
@@ -115,6 +122,24 @@ Theorem C16_filemap_fresh_exact : forall c fs, fm_exact c fs [].
 Proof. exact fm_exact_nil. Qed.
 Print Assumptions C16_filemap_fresh_exact.
 
+(* the served variant, for ANY history of the view instance (C16_variant_acceptable is the fresh-instance case): every
+   200 answer of a request sequence -- whatever the filemap has cached from earlier requests with other Accept-Encoding
+   headers -- carries the content of an existing file p, is labelled with p's encoding, that encoding is acceptable to
+   the client of THIS request, and no acceptable existing candidate is smaller.  All six mountings, no hypothesis
+   on configuration, file system or requests *)
+Theorem C16_variant_acceptable_history : forall c fs rqs,
+  Forall (fun x : request * (resp * logt) =>
+            forall body enc vary, fst (snd x) = R200 body enc vary ->
+            exists name p,
+              let keyed := fst (sizes fs (fst (probe c fs (candidates c name)))) in
+              spec_acceptable (fst x) enc = true /\
+              (exists sz, fs_stat fs p = Some (EFile sz body)) /\
+              exists k, In (k, (p, enc)) keyed /\ k = entry_size (fs_stat fs p) /\
+                forall k' f', In (k', f') keyed -> spec_acceptable (fst x) (snd f') = true -> k <= k')
+         (combine rqs (run_model c fs rqs)).
+Proof. exact variant_acceptable_fresh. Qed.
+Print Assumptions C16_variant_acceptable_history.
+
 (* several view instances in one process (run_multi: requests tagged with the instance that
    serves them, one filemap per instance): every answer of any interleaving equals the answer a
    fresh, lone instance with that configuration gives to that request -- independent of what the
@@ -149,6 +174,22 @@ Theorem C16_containment_multi : forall cs fs rqs,
 Proof. exact multi_containment. Qed.
 Print Assumptions C16_containment_multi.
 
+(* ... and with several instances: every 200 answer of any interleaving is a smallest existing variant acceptable to
+   the client of that request, judged with the configuration (encodings, root) of the instance that served it *)
+Theorem C16_variant_acceptable_multi : forall cs fs rqs,
+  Forall (fun x : (nat * request) * (resp * logt) =>
+            forall body enc vary, fst (snd x) = R200 body enc vary ->
+            exists name p,
+              let keyed := fst (sizes fs (fst (probe (nth (fst (fst x)) cs dflt_cfg) fs
+                                                     (candidates (nth (fst (fst x)) cs dflt_cfg) name)))) in
+              spec_acceptable (snd (fst x)) enc = true /\
+              (exists sz, fs_stat fs p = Some (EFile sz body)) /\
+              exists k, In (k, (p, enc)) keyed /\ k = entry_size (fs_stat fs p) /\
+                forall k' f', In (k', f') keyed -> spec_acceptable (snd (fst x)) (snd f') = true -> k <= k')
+         (combine rqs (run_multi_model cs fs rqs)).
+Proof. exact variant_acceptable_multi_fresh. Qed.
+Print Assumptions C16_variant_acceptable_multi.
+
 (* the runner used in the correspondence is run_multi; with one instance it is run_requests *)
 Theorem C16_run_multi_single : forall c fs rqs fm,
   run_multi [c] fs [fm] (map (pair O) rqs) = run_requests c fs fm rqs.
@@ -181,6 +222,22 @@ Print Assumptions C16_gen_contains_invalid_is_model.
 Theorem C16_gen_secure_path_is_model : forall t, gen_secure_path t = secure_path t.
 Proof. exact gen_secure_path_is_model. Qed.
 Print Assumptions C16_gen_secure_path_is_model.
+
+(* add_slash_redirect: UnicodeDecodeError for an undecodable PATH_INFO, else 301 to path_url + '/' (+ '?' + query string) *)
+Theorem C16_gen_add_slash_redirect_is_model : forall c rq pi fm,
+  gen_add_slash_redirect c rq pi fm =
+  match path_url c pi with
+  | None => ((Raise (RExc 2), fm), [])
+  | Some u => ((Val (redirect rq u), fm), [])
+  end.
+Proof. exact gen_add_slash_redirect_is_model. Qed.
+Print Assumptions C16_gen_add_slash_redirect_is_model.
+
+(* _compile_content_encodings over mimetypes.encodings_map (an oracle input): encoding -> [extensions], insertion ordered *)
+Theorem C16_gen_compile_content_encodings_is_model : forall encmap encs,
+  gen_compile_content_encodings encmap encs = compile_encodings encs encmap.
+Proof. exact gen_compile_content_encodings_is_model. Qed.
+Print Assumptions C16_gen_compile_content_encodings_is_model.
 
 Theorem C16_gen_find_resource_path_is_model : forall c fs n fm,
   gen_find_resource_path c fs n fm = ((Val (frp_value c fs n), fm), [(0, os_path c n)]).
